@@ -17,16 +17,22 @@ set_option linter.unusedSimpArgs false
 set_option linter.unusedVariables false
 
 mutual
-/-- The fragment the tree-level theorem covers: registers, buffers and blocks (any nesting) whose numbers
-    every syntax can carry. (Commands and refs are compared by execution only.) -/
+/-- The fragment the tree-level theorem covers: every object kind at any nesting - blocks, registers,
+    commands, buffers, refs (with an override of a known kind and no layout keys) - whose numbers every
+    syntax can carry. -/
 def ObjIn (syn : Syntax) : AObj → Prop
   | .block _ off rep os => (∀ x, off = some x → fitsI64 x = true) ∧ (∀ x, rep = some x → RepeatOk syn x) ∧ ObjsIn syn os
   | .register _ _ _ _ address size reset rep _ _ fields =>
     fitsI64 address = true ∧ size < 2 ^ 32 ∧ (∀ x, reset = some x → ResetOk syn x) ∧ (∀ x, rep = some x → RepeatOk syn x) ∧
     ∀ f ∈ fields, FieldOk f
   | .buffer _ _ address => fitsI64 address = true
-  | .command .. => False
-  | .ref .. => False
+  | .command _ _ address _ _ si so rep _ _ fin fout =>
+    fitsI64 address = true ∧ (∀ x, si = some x → x < 2 ^ 32) ∧ (∀ x, so = some x → x < 2 ^ 32) ∧
+    (∀ x, rep = some x → RepeatOk syn x) ∧ (∀ f ∈ fin.getD [], FieldOk f) ∧ (∀ f ∈ fout.getD [], FieldOk f)
+  | .ref _ _ ov =>
+    ov.illegal = [] ∧ (ov.kind = "block" ∨ ov.kind = "register" ∨ ov.kind = "command" ∨ ov.kind = "buffer" ∨ ov.kind = "ref") ∧
+    (∀ x, ov.address = some x → fitsI64 x = true) ∧ (∀ x, ov.repeat_ = some x → RepeatOk syn x) ∧
+    (ov.kind = "register" → ∀ x, ov.reset = some x → ResetOk syn x)
 def ObjsIn (syn : Syntax) : List AObj → Prop
   | [] => True
   | o :: os => ObjIn syn o ∧ ObjsIn syn os
@@ -59,6 +65,131 @@ theorem manBlockStep_scalar (syn : Syntax) (g : GlobalConfig) (h : BlockHead) (o
     (hk : k ≠ "objects") : manBlockStep syn g h os k v = manBlockScalar syn h os k v := by
   cases v <;> simp [manBlockStep, hk]
 
+/-- the command under construction after the first `n` keys -/
+def cmdState (g : GlobalConfig) (c : ACommon) (address : Int) (bo : Option DDV.Bits.ByteOrder) (bito : Option DDV.Bits.BitOrder)
+    (si so : Option Nat) (rep : Option Repeat) (abo aao : Option Bool) (fi fo : List Field) (n : Nat) : Command :=
+  { cfg := if n ≥ 1 then c.cfg else none,
+    description := if n ≥ 2 then c.description.getD "" else "",
+    name := c.name,
+    byteOrder := if n ≥ 3 then bo else none,
+    bitOrder := if n ≥ 4 then bito.getD g.defaultBitOrder else g.defaultBitOrder,
+    address := if n ≥ 5 then address else 0,
+    sizeBitsIn := if n ≥ 6 then si.getD 0 else 0,
+    sizeBitsOut := if n ≥ 7 then so.getD 0 else 0,
+    repeat_ := if n ≥ 8 then rep else none,
+    allowBitOverlap := if n ≥ 9 then abo.getD false else false,
+    allowAddressOverlap := if n ≥ 10 then aao.getD false else false,
+    inFields := if n ≥ 11 then fi else [],
+    outFields := if n ≥ 12 then fo else [] }
+
+/-- **A rendered command is read back as the abstract lowering says** (numbers within range). -/
+theorem manCommand_render (syn : Syntax) (g : GlobalConfig) (c : ACommon) (address : Int)
+    (bo : Option DDV.Bits.ByteOrder) (bito : Option DDV.Bits.BitOrder) (si so : Option Nat) (rep : Option Repeat)
+    (abo aao : Option Bool) (fin fout : Option (List AField)) (fi fo : List Field)
+    (ha : fitsI64 address = true) (hsi : ∀ x, si = some x → x < 2 ^ 32) (hso : ∀ x, so = some x → x < 2 ^ 32)
+    (hp : ∀ x, rep = some x → RepeatOk syn x)
+    (hfi : (fin.getD []).mapM (manField g) = pure fi) (hfo : (fout.getD []).mapM (manField g) = pure fo)
+    (hfin : ∀ l, fin = some l → manFieldsV syn g (rFields syn l) = pure fi)
+    (hfout : ∀ l, fout = some l → manFieldsV syn g (rFields syn l) = pure fo) :
+    manCommand syn g c.name (commandKvs syn c address bo bito si so rep abo aao fin fout) =
+      pure (cmdState g c address bo bito si so rep abo aao fi fo 12) := by
+  have e1 := asIntV_int syn address ha
+  have hmem : mhas (commandKvs syn c address bo bito si so rep abo aao fin fout) "address" = true := by
+    unfold mhas commandKvs rCommon
+    simp only [List.append_assoc, List.cons_append, List.nil_append]
+    rw [mget_cons_ne _ _ _ _ (show "type" ≠ "address" by decide), mget_rOpt_ne _ _ _ _ _ (show "cfg" ≠ "address" by decide),
+      mget_rOpt_ne _ _ _ _ _ (show "description" ≠ "address" by decide),
+      mget_rOpt_ne _ _ _ _ _ (show "byte_order" ≠ "address" by decide), mget_rOpt_ne _ _ _ _ _ (show "bit_order" ≠ "address" by decide),
+      mget_cons_eq]
+    rfl
+  have hfi0 : fin = none → fi = [] := by
+    intro h; rw [h] at hfi; simp [pure, Except.pure] at hfi; exact hfi
+  have hfo0 : fout = none → fo = [] := by
+    intro h; rw [h] at hfo; simp [pure, Except.pure] at hfo; exact hfo
+  unfold manCommand
+  simp only [hmem, Bool.not_true, Bool.false_eq_true, if_false, bind, Except.bind, pure, Except.pure]
+  unfold manCommandKeys commandKvs rCommon
+  simp only [List.append_assoc, List.cons_append, List.nil_append]
+  let S := cmdState g c address bo bito si so rep abo aao fi fo
+  change List.foldlM _ (S 0) _ = _
+  rw [foldlM_one _ _ (S 0) _ _ (by simp [manCommandStep, pure, Except.pure])]
+  rw [foldlM_rOpt' _ "cfg" c.cfg .str _ (S 0) (S 1) (by intro a h; simp [S, cmdState, manCommandStep, asStringV, h, bind, Except.bind, pure, Except.pure])
+    (by intro h; simp [S, cmdState, h])]
+  rw [foldlM_rOpt' _ "description" c.description .str _ (S 1) (S 2) (by intro a h; simp [S, cmdState, manCommandStep, asStringV, h, bind, Except.bind, pure, Except.pure])
+    (by intro h; simp [S, cmdState, h])]
+  rw [foldlM_rOpt' _ "byte_order" bo rByteOrder _ (S 2) (S 3) (by intro a h; simp [S, cmdState, manCommandStep, manByteOrder_render, h, bind, Except.bind, pure, Except.pure])
+    (by intro h; simp [S, cmdState, h])]
+  rw [foldlM_rOpt' _ "bit_order" bito rBitOrder _ (S 3) (S 4) (by intro a h; simp [S, cmdState, manCommandStep, manBitOrder_render, h, bind, Except.bind, pure, Except.pure])
+    (by intro h; simp [S, cmdState, h])]
+  rw [foldlM_one _ _ (S 5) _ _ (by simp [S, cmdState, manCommandStep, rIntV, e1, bind, Except.bind, pure, Except.pure])]
+  rw [foldlM_rOpt' _ "size_bits_in" si rNat _ (S 5) (S 6) (by intro a h; simp [S, cmdState, manCommandStep, asU32V_nat syn a (hsi a h), h, bind, Except.bind, pure, Except.pure])
+    (by intro h; simp [S, cmdState, h])]
+  rw [foldlM_rOpt' _ "size_bits_out" so rNat _ (S 6) (S 7) (by intro a h; simp [S, cmdState, manCommandStep, asU32V_nat syn a (hso a h), h, bind, Except.bind, pure, Except.pure])
+    (by intro h; simp [S, cmdState, h])]
+  rw [foldlM_rOpt' _ "repeat" rep rRepeat _ (S 7) (S 8) (by intro a h; simp [S, cmdState, manCommandStep, manRepeat_render syn a (hp a h), h, bind, Except.bind, pure, Except.pure])
+    (by intro h; simp [S, cmdState, h])]
+  rw [foldlM_rOpt' _ "allow_bit_overlap" abo rBool _ (S 8) (S 9) (by intro a h; simp [S, cmdState, manCommandStep, asBoolV, rBool, h, bind, Except.bind, pure, Except.pure])
+    (by intro h; simp [S, cmdState, h])]
+  rw [foldlM_rOpt' _ "allow_address_overlap" aao rBool _ (S 9) (S 10) (by intro a h; simp [S, cmdState, manCommandStep, asBoolV, rBool, h, bind, Except.bind, pure, Except.pure])
+    (by intro h; simp [S, cmdState, h])]
+  rw [foldlM_rOpt' _ "fields_in" fin (rFields syn) _ (S 10) (S 11) (by intro a h; simp [S, cmdState, manCommandStep, hfin a h, bind, Except.bind, pure, Except.pure])
+    (by intro h; simp [S, cmdState, hfi0 h])]
+  have := foldlM_rOpt' (manCommandStep syn g) "fields_out" fout (rFields syn) [] (S 11) (S 12)
+    (by intro a h; simp [S, cmdState, manCommandStep, hfout a h, bind, Except.bind, pure, Except.pure]) (by intro h; simp [S, cmdState, hfo0 h])
+  rw [List.append_nil] at this
+  rw [this]
+  rfl
+
+theorem inOverride_ok {α : Type} (a : α) : inOverride (pure a : M α) = pure a := rfl
+
+/-- **A rendered override is read back as the abstract lowering says.** -/
+theorem manOverride_render (syn : Syntax) (target : String) (ov : AOverride)
+    (hi : ov.illegal = []) (hk : ov.kind = "block" ∨ ov.kind = "register" ∨ ov.kind = "command" ∨ ov.kind = "buffer" ∨ ov.kind = "ref")
+    (ha : ∀ x, ov.address = some x → fitsI64 x = true) (hp : ∀ x, ov.repeat_ = some x → RepeatOk syn x)
+    (hr : ov.kind = "register" → ∀ x, ov.reset = some x → ResetOk syn x) :
+    manOverrideV syn target (.map (overrideKvs ov)) = manOverride syn target ov := by
+  have haddr : ov.address.mapM checkAddr = pure ov.address := by
+    cases h : ov.address with
+    | none => rfl
+    | some x => simp [Option.mapM, checkAddr_ok x (ha x h), bind, Except.bind, pure, Except.pure, Functor.map, Except.map]
+  have hrep := checkRepeat_ok syn ov.repeat_ hp
+  unfold manOverrideV manOverride overrideKvs
+  rcases hk with hk | hk | hk | hk | hk
+  · -- block
+    simp only [hk, hi, asMapV, bind, Except.bind, pure, Except.pure, haddr, hrep, List.isEmpty_nil, Bool.not_true]
+    cases hao : ov.address with
+    | none =>
+      cases hrp : ov.repeat_ with
+      | none => simp [rOpt, mget, List.find?_cons, asStringV, manBlockOverrideKeys, manBlockOverrideStep, List.foldlM_cons, inOverride, bind, Except.bind, pure, Except.pure]
+      | some r =>
+        have e := manRepeat_render syn r (hp r hrp)
+        simp [rOpt, mget, List.find?_cons, asStringV, manBlockOverrideKeys, manBlockOverrideStep, List.foldlM_cons, inOverride, e, bind, Except.bind, pure, Except.pure]
+    | some a =>
+      have e0 := asIntV_int syn a (ha a hao)
+      cases hrp : ov.repeat_ with
+      | none => simp [rOpt, mget, List.find?_cons, asStringV, manBlockOverrideKeys, manBlockOverrideStep, List.foldlM_cons, inOverride, rIntV, e0, bind, Except.bind, pure, Except.pure]
+      | some r =>
+        have e := manRepeat_render syn r (hp r hrp)
+        simp [rOpt, mget, List.find?_cons, asStringV, manBlockOverrideKeys, manBlockOverrideStep, List.foldlM_cons, inOverride, rIntV, e0, e, bind, Except.bind, pure, Except.pure]
+  · -- register
+    have hreset := manReset_abs syn ov.reset (hr hk)
+    simp only [hk, hi, asMapV, bind, Except.bind, pure, Except.pure, haddr, hrep, hreset, List.isEmpty_nil, Bool.not_true]
+    have eaddr : ∀ a, ov.address = some a → asIntV syn (.int a) = pure a := fun a h => asIntV_int syn a (ha a h)
+    have erep : ∀ r, ov.repeat_ = some r → manRepeatV syn (rRepeat r) = pure r := fun r h => manRepeat_render syn r (hp r h)
+    have erst : ∀ r, ov.reset = some r → manResetV syn (rReset r) = pure r := fun r h => manReset_render syn r (hr hk r h)
+    cases hacc : ov.access <;> cases hao : ov.address <;> cases hrs : ov.reset <;> cases hrp : ov.repeat_ <;> cases haa : ov.allowAddressOverlap <;>
+      simp_all [rOpt, mget, List.find?_cons, asStringV, asBoolV, rBool, manRegisterOverrideKeys, manRegisterOverrideStep, List.foldlM_cons, inOverride,
+        rIntV, manAccess_render, bind, Except.bind, pure, Except.pure]
+  · -- command
+    simp only [hk, hi, asMapV, bind, Except.bind, pure, Except.pure, haddr, hrep, List.isEmpty_nil, Bool.not_true]
+    have eaddr : ∀ a, ov.address = some a → asIntV syn (.int a) = pure a := fun a h => asIntV_int syn a (ha a h)
+    have erep : ∀ r, ov.repeat_ = some r → manRepeatV syn (rRepeat r) = pure r := fun r h => manRepeat_render syn r (hp r h)
+    cases hao : ov.address <;> cases hrp : ov.repeat_ <;> cases haa : ov.allowAddressOverlap <;>
+      simp_all [rOpt, mget, List.find?_cons, asStringV, asBoolV, rBool, manCommandOverrideKeys, manCommandOverrideStep, List.foldlM_cons, inOverride,
+        rIntV, bind, Except.bind, pure, Except.pure]
+  · simp [hk, asMapV, mget, List.find?_cons, asStringV, bind, Except.bind, pure, Except.pure, throw, throwThe, MonadExceptOf.throw]
+  · simp [hk, asMapV, mget, List.find?_cons, asStringV, bind, Except.bind, pure, Except.pure, throw, throwThe, MonadExceptOf.throw]
+
 theorem manField_ok (g : GlobalConfig) (f : AField) (h : FieldOk f) : ∃ r, manField g f = .ok r := by
   obtain ⟨hs, he, _⟩ := h
   unfold manField
@@ -78,7 +209,7 @@ theorem mapM_manField_ok (g : GlobalConfig) : ∀ (fs : List AField), (∀ f ∈
     exact ⟨r :: rs, by simp [List.mapM_cons, hr, hrs, bind, Except.bind, pure, Except.pure]⟩
 
 mutual
-/-- **A rendered object is read back as the abstract lowering says** (registers, buffers, blocks). -/
+/-- **A rendered object is read back as the abstract lowering says** (every object kind). -/
 theorem manObject_render (syn : Syntax) (g : GlobalConfig) :
     ∀ (o : AObj), ObjIn syn o → manObjectV syn g (rObj syn o).1 (rObj syn o).2 = manObj syn g o
   | .block c off rep os, h => by
@@ -138,8 +269,60 @@ theorem manObject_render (syn : Syntax) (g : GlobalConfig) :
     simp only [manObjectV, hmt, asStringV, bind, Except.bind, pure, Except.pure]
     rw [manBuffer_render syn g c access address h, checkAddr_ok address h]
     simp [bind, Except.bind, pure, Except.pure]
-  | .command .., h => by unfold ObjIn at h; exact h.elim
-  | .ref .., h => by unfold ObjIn at h; exact h.elim
+  | .command c basic address bo bito si so rep abo aao fin fout, h => by
+    unfold ObjIn at h
+    obtain ⟨h1, h2, h3, h4, h5, h6⟩ := h
+    unfold manObj rObj
+    have hmt : mget (commandKvs syn c address bo bito si so rep abo aao fin fout) "type" = some (.str "command") := by
+      unfold commandKvs; simp only [List.append_assoc]; exact mget_type _ _ _
+    simp only [manObjectV, hmt, asStringV, bind, Except.bind, pure, Except.pure]
+    obtain ⟨fi, hfi⟩ := mapM_manField_ok g (fin.getD []) h5
+    obtain ⟨fo, hfo⟩ := mapM_manField_ok g (fout.getD []) h6
+    have hfin : ∀ l, fin = some l → manFieldsV syn g (rFields syn l) = pure fi := by
+      intro l hl
+      rw [manFields_render syn g l (by intro f hf; exact h5 f (by simp [hl, hf]))]
+      rw [hl] at hfi; simpa [pure, Except.pure] using hfi
+    have hfout : ∀ l, fout = some l → manFieldsV syn g (rFields syn l) = pure fo := by
+      intro l hl
+      rw [manFields_render syn g l (by intro f hf; exact h6 f (by simp [hl, hf]))]
+      rw [hl] at hfo; simpa [pure, Except.pure] using hfo
+    have hsi : checkU32 (si.getD 0) = pure (si.getD 0) := by
+      cases hs : si with
+      | none => exact checkU32_ok 0 (by decide)
+      | some x => exact checkU32_ok x (h2 x hs)
+    have hso : checkU32 (so.getD 0) = pure (so.getD 0) := by
+      cases hs : so with
+      | none => exact checkU32_ok 0 (by decide)
+      | some x => exact checkU32_ok x (h3 x hs)
+    rw [manCommand_render syn g c address bo bito si so rep abo aao fin fout fi fo h1 h2 h3 h4 hfi hfo hfin hfout]
+    rw [checkAddr_ok address h1, hfi, hfo, hsi, hso, checkRepeat_ok syn rep h4]
+    simp [cmdState, bind, Except.bind, pure, Except.pure]
+  | .ref c target ov, h => by
+    unfold ObjIn at h
+    obtain ⟨h1, h2, h3, h4, h5⟩ := h
+    unfold manObj rObj
+    have hmt : mget (refKvs c target ov) "type" = some (.str "ref") := by
+      unfold refKvs; exact mget_type _ _ _
+    simp only [manObjectV, hmt, asStringV, bind, Except.bind, pure, Except.pure]
+    have hov := manOverride_render syn target ov h1 h2 h3 h4 h5
+    unfold manRef refKvs rCommon
+    have hk1 : mhas ([("type", MVal.str "ref")] ++ rOpt "cfg" c.cfg MVal.str ++ rOpt "description" c.description MVal.str ++
+        [("target", MVal.str target), ("override", MVal.map (overrideKvs ov))]) "target" = true := by
+      cases c.cfg <;> cases c.description <;> simp [rOpt, mhas, mget, List.find?_cons]
+    have hk2 : mhas ([("type", MVal.str "ref")] ++ rOpt "cfg" c.cfg MVal.str ++ rOpt "description" c.description MVal.str ++
+        [("target", MVal.str target), ("override", MVal.map (overrideKvs ov))]) "override" = true := by
+      cases c.cfg <;> cases c.description <;> simp [rOpt, mhas, mget, List.find?_cons]
+    have hg1 : mget ([("type", MVal.str "ref")] ++ rOpt "cfg" c.cfg MVal.str ++ rOpt "description" c.description MVal.str ++
+        [("target", MVal.str target), ("override", MVal.map (overrideKvs ov))]) "target" = some (.str target) := by
+      cases c.cfg <;> cases c.description <;> simp [rOpt, mget, List.find?_cons]
+    have hg2 : mget ([("type", MVal.str "ref")] ++ rOpt "cfg" c.cfg MVal.str ++ rOpt "description" c.description MVal.str ++
+        [("target", MVal.str target), ("override", MVal.map (overrideKvs ov))]) "override" = some (.map (overrideKvs ov)) := by
+      cases c.cfg <;> cases c.description <;> simp [rOpt, mget, List.find?_cons]
+    simp only [hk1, hk2, hg1, hg2, Bool.not_true, Bool.false_eq_true, if_false, asStringV, bind, Except.bind, pure, Except.pure,
+      Option.getD_some, hov]
+    cases hc : c.cfg <;> cases hd : c.description <;>
+      simp [rOpt, manRefKeys, manRefStep, List.foldlM_cons, asStringV, bind, Except.bind, pure, Except.pure] <;>
+      cases manOverride syn target ov <;> rfl
 theorem manObjects_render (syn : Syntax) (g : GlobalConfig) :
     ∀ (os : List AObj), ObjsIn syn os → manObjectsKvs syn g (rObjs syn os) = manObjs syn g os
   | [], _ => by unfold manObjs rObjs manObjectsKvs; rfl
@@ -205,8 +388,8 @@ theorem manConfig_render (c : AConfig) (hb : c.nameWordBoundaries = none) :
   rw [this]
   simp [S, cfgState, lowerConfig, hb, pure, Except.pure]
 
-/-- **The manifest front end, key by key, computes the abstract lowering**: for every definition made
-    of registers, buffers and blocks (any nesting) whose numbers every syntax can carry, reading the
+/-- **The manifest front end, key by key, computes the abstract lowering**: for every definition (all
+    object kinds, any nesting) whose numbers every syntax can carry, reading the
     rendered value tree with the model of `dd-manifest-tree` + `manifest/mod.rs` gives exactly
     `lowerManifest` — the function `DDV.Props.C16.front_ends_agree` relates to the DSL lowering. -/
 theorem manTransform_render (syn : Syntax) (d : ADef) (hb : d.config.nameWordBoundaries = none)
@@ -255,7 +438,7 @@ theorem config_keys_all_known (kvs : MKvs) (g g' : GlobalConfig)
   foldlM_keys_known _ _ configStep_known kvs g g' h
 
 /-- **The DSL lowering is the key-by-key reading of the rendered manifest**: for a definition of the
-    common fragment made of registers, buffers and blocks whose numbers every syntax can carry. -/
+    common fragment whose numbers every syntax can carry. -/
 theorem dsl_lowering_eq_tree_reading (syn : Syntax) (d : ADef) (hc : DDV.Props.C16.CommonObjs syn d.objects)
     (hb : d.config.nameWordBoundaries = none) (hn : ∀ p ∈ rObjs syn d.objects, p.1 ≠ "config")
     (h : ObjsIn syn d.objects) :
@@ -263,11 +446,14 @@ theorem dsl_lowering_eq_tree_reading (syn : Syntax) (d : ADef) (hc : DDV.Props.C
   rw [manTransform_render syn d hb hn h]
   exact DDV.Props.C16.front_ends_agree syn d hc
 
-/-- Non-vacuity: a block with a repeated register and a buffer lies in the fragment. -/
+/-- Non-vacuity: a block with a register, a command and a buffer, and a ref with an override, lie in the fragment. -/
 example : ObjsIn .yaml [AObj.block { name := "Bank" } (some 16) (some ⟨2, 8⟩)
     [AObj.register { name := "Ctrl" } none none none 5 12 (some (.int 0xABC)) none none none
       [{ name := "en", base := .bool, start := 0, stop := none }],
-     AObj.buffer { name := "Fifo" } (some .ro) 3]] := by
+     AObj.command { name := "Go" } false 7 none none (some 8) none none none none
+      (some [{ name := "arg", base := .uint, start := 0, stop := some 8 }]) none,
+     AObj.buffer { name := "Fifo" } (some .ro) 3],
+    AObj.ref { name := "Alias" } "Ctrl" { kind := "register", address := some 40, reset := some (.array [1, 2]) }] := by
   simp [ObjsIn, ObjIn, RepeatOk, ResetOk, FieldOk, fitsI64]
 
 end DDV.Props.C16Tree
